@@ -849,6 +849,10 @@ func run(c *vm.Ctx) {
 		}
 	}
 	checkClassifiers(c)
+	tr := c.Rand("together")
+	for i := 0; i < c.Scale(6, 60); i++ {
+		checkTogether(c, tr)
+	}
 	cr := c.Rand("counter")
 	for i := 0; i < c.Scale(400, 8000); i++ {
 		checkCounter(c, cr)
